@@ -72,12 +72,9 @@ Theorem c09_cache_ignored : forall e l r1 r2 r3 r1' r2' r3' rest,
   decode_request e (l :: r1 :: r2 :: r3 :: rest) = decode_request e (l :: r1' :: r2' :: r3' :: rest).
 Proof. exact cache_ignored. Qed.
 
-(* (5) DecodeDnsRequest is not total: it panics exactly when the guard fails (property C12) *)
-Theorem c09_request_total_partial : forall e x, is_panic (decode_request e x) = negb (no_panic_guard x).
-Proof. exact request_total_partial. Qed.
-
-Theorem c09_request_panics_refuted : exists x e s, decode_request e x = Panic s.
-Proof. exact request_panics_refuted. Qed.
+(* (5) DecodeDnsRequest is total: no octet string makes it panic (property C12; the guard of earlier versions is gone) *)
+Theorem c09_request_total : forall e x, is_panic (decode_request e x) = false.
+Proof. exact request_total. Qed.
 
 (* the observation of the harness protocol, for every request within the budget *)
 Theorem c09_observation : forall c req dom qt,
@@ -139,8 +136,7 @@ Print Assumptions c09_mtu_fits.
 Print Assumptions c09_packet_within_mtu.
 Print Assumptions c09_letter_case.
 Print Assumptions c09_cache_ignored.
-Print Assumptions c09_request_total_partial.
-Print Assumptions c09_request_panics_refuted.
+Print Assumptions c09_request_total.
 Print Assumptions c09_observation.
 
 (* ---- tie to the source: the constants and the command table the model uses are the ones the translator reads from the Go
